@@ -226,6 +226,17 @@ func VerifC04() {
 	l3install()
 	T, g1, g2, focus, fkey, fit, hasFocus := c04token()
 	p2 := g2 != nil
+	if ndParam("fullpresence", 0) == 1 {
+		// variant: every top-level claim is present (concretely), so that a decoder which walks
+		// the members one by one (e.g. into a Go map) does not fork per presence flag
+		for i := range T.has {
+			if T.keys[i] == -75006 || T.keys[i] == -75007 {
+				continue // profile 1: list and flag exclude each other
+			}
+			ndAssume(T.has[i])
+			T.has[i] = true
+		}
+	}
 	// unknown extra members are ignored, whatever the type of their key
 	T.put(99999, &vItem{kind: ikUint, u: 7}, ndBool("extra.key"))
 	T.tkey, T.telem, T.thas = "vendor-ext", &vItem{kind: ikUint, u: 7}, ndBool("extra.textkey")
